@@ -85,6 +85,21 @@ def none():
     return Obj(adt="core::option::Option", variant="None", vidx=0)
 
 
+def copy_value(v):
+    """copy of a value as an assignment makes it: aggregates are copied, pointers keep pointing at the same storage"""
+    if isinstance(v, Obj):
+        o = Obj(name=v.name, adt=v.adt, variant=v.variant, vidx=v.vidx)
+        o.fields = {k: copy_value(x) for k, x in v.fields.items()} if v.fields is not None else v.fields
+        return o
+    if isinstance(v, list):
+        return [copy_value(x) for x in v]
+    if isinstance(v, Ref):
+        return v
+    if isinstance(v, (Q, Cond, int, bool, str, type(None), Top)):
+        return v
+    return copy.deepcopy(v)
+
+
 class Frame:
     __slots__ = ("fn", "bb", "cells", "ret_loc", "ret_bb", "visits", "ctx_self")
 
@@ -267,7 +282,7 @@ class Engine:
             return self.constant(frame, o["k"])
         v = self.read(frame, op_place(o))
         if isinstance(v, Obj):
-            return copy.deepcopy(v)
+            return copy_value(v)
         return v
 
     def constant(self, frame, k):
